@@ -127,6 +127,7 @@ class _Net:
         self.sent = bytearray()
         self.hook = None
         self.opened = []
+        self.calls = 0
 
     def load(self, stream, bounds):
         self.stream = stream
@@ -135,8 +136,12 @@ class _Net:
         self.bi = 0
         self.pos = 0
         self.answers = []
+        self.calls = 0
 
     def recv(self, want):
+        self.calls += 1
+        if self.calls > 8 * self.n + 64:
+            raise _Deadlock('reader keeps calling recv without consuming the stream')
         if self.hook is not None:
             self.hook(self.pos)
         pos = self.pos
@@ -927,7 +932,7 @@ def part_router(job):
                     p.points += len(ops)
                     p.case(key=('router', seq, ops, mode), outcome=tuple(obs['log']))
                     p.add('traces_validated_against_impl', 1)
-                    if want_sample and seq == 'cXac' and ops in ('cRaRRRc', 'RRcRaR'):
+                    if want_sample and seq == 'cXac' and ops in ('cRRRRc', 'RRcRaR'):
                         p.sample({'part': 'router', 'packets': seq, 'schedule': ops, 'one_byte_per_recv': bool(mode),
                                   'receive_calls(receiver:#packet)': obs['log'],
                                   'result': 'FIFO per function' if not probs else probs[0][0]})
@@ -1029,7 +1034,7 @@ def part_tcp(job):
                         p.case(key=('tcp_out', form, h, ln, pat), outcome=('out', ln, h >> 4))
                         p.transitions += 1
                         p.add('traces_validated_against_impl', 1)
-                        if want_sample and (h, ln, pat, form) == (0x5d, 3, 0, 'ctor'):
+                        if want_sample and (h, ln, pat, form) == (0x5d, 2, 0, 'ctor'):
                             p.sample({'part': 'tcp', 'direction': 'send_packet', 'crtp_header': '0x5d',
                                       'crtp_payload': pl.hex(), 'bytes_on_socket': sent.hex(),
                                       'result': 'intact' if not probs else probs[0][0]})
@@ -1182,7 +1187,7 @@ def part_serial(job):
                         p.case(key=('serial_out', form, h, ln, pat), outcome=('out', ln, h >> 4))
                         p.transitions += 1
                         p.add('traces_validated_against_impl', 1)
-                        if want_sample and (h, ln, pat, form) == (0x5d, 3, 0, 'ctor'):
+                        if want_sample and (h, ln, pat, form) == (0x5d, 2, 0, 'ctor'):
                             p.sample({'part': 'serial', 'direction': 'send_packet', 'crtp_header': '0x5d',
                                       'crtp_payload': pl.hex(), 'bytes_on_uart': sent.hex(),
                                       'result': 'intact' if not probs else probs[0][0]})
@@ -1304,7 +1309,10 @@ def _big_jobs(quick):
 def _router_jobs(quick):
     import itertools
     lmax = 4 if quick else 5
-    gmax = {L: (3 if quick or L == 5 else 4) for L in range(1, lmax + 1)}
+    if quick:
+        gmax = {1: 3, 2: 3, 3: 3, 4: 2}
+    else:
+        gmax = {1: 4, 2: 4, 3: 4, 4: 4, 5: 3}
     seqs = []
     for L in range(1, lmax + 1):
         for t in itertools.product('caoX', repeat=L):
@@ -1365,7 +1373,7 @@ def run(ck):
         'at most %s receivePacket calls of 3 receivers (+ final drain); states = schedule prefixes, transitions = '
         'operations. tcp/serial: all 256 CRTP headers x payload lengths 0-30 in both directions through the drivers.'
         % ('0-64,100,253-256,1021,1022' if quick else '0-100,253-257,511,512,1021-1024,4094,65533', max_total, lmax,
-           '3' if quick else '4 (3 for 5 packets)'))
+           '3 (2 for 4 packets)' if quick else '4 (3 for 5 packets)'))
     ck.assume('reference wire format written in the check from the CPX protocol description: byte0 = dst | src<<3 | '
               'last<<6, byte1 = function | version<<6, TCP length prefix little-endian uint16 of header+payload, UART '
               'frame FF,len,body,XOR; host is little-endian (the library packs the prefix in native order)')
